@@ -78,8 +78,11 @@ MIXES = {
     "sizes": [(f"t{n}", "ndarray", n, "main") for n in SIZES] + [("u2big", "uint2", 300, "main")],
     # initializers two and three graph levels below the main graph (If inside an If branch inside an If branch)
     "nested_subgraphs": [("m", "ndarray", 300, "main"), ("b1", "ndarray", 300, "body"), ("d1", "ndarray", 300, "deep"), ("d2", "lazy", 9, "deep"), ("dd", "ndarray", 5000, "deeper")],
+    # the tensor objects carry names of their own: none, empty, an unrelated one, and the name of ANOTHER initializer
+    "tensor_names_differ": [("a", "ndarray", 300, "main"), ("b", "ndarray", 300, "main"), ("c", "lazy", 300, "main"), ("d", "ndarray", 300, "main"), ("e", "ndarray", 9, "main"), ("f", "ndarray", 300, "body")],
     "resave_in_place": "special",
 }
+TENSOR_OWN_NAMES = {"a": None, "b": "", "c": "unrelated_tensor_name", "d": "a", "e": "f", "f": "d"}
 # mixes whose sources are external tensors are also saved with a kernel that copies at most 64 bytes per call
 SHORT_KERNEL_COPY_MIXES = ("external_other", "resave_in_place")
 
@@ -104,6 +107,8 @@ def build_model(mix, root):
             t.name = vname
         objs[vname] = t
         v = ir.Value(name=vname, const_value=t)
+        if mix == "tensor_names_differ":
+            t.name = TENSOR_OWN_NAMES[vname]
         {"main": main_vals, "body": body_vals, "deep": deep_vals, "deeper": deeper_vals}[where].append(v)
     x = ir.Value(name="x", type=ir.TensorType(ir.DataType.BOOL), shape=ir.Shape([]))
     nodes = []
